@@ -279,8 +279,9 @@ def build_app(cfg, seed=0, record=None, beh=None):
     from clastic.decorators import clastic_decorator
     from werkzeug.wrappers import Response
     rnd = random.Random(seed)
+    from clastic.errors import Forbidden
     ns = {'Response': Response, 'REC': record if record is not None else [], 'BEH': beh if beh is not None else {}, 'Boom': Boom,
-          'CTX': {'ctx': 1}}
+          'CTX': {'ctx': 1}, 'Forbidden': Forbidden}
 
     def header(fname, d, with_self, first_next):
         ptext, _ = param_text(d['params'], first_next, with_self)
@@ -295,6 +296,7 @@ def build_app(cfg, seed=0, record=None, beh=None):
                 '    b = BEH.get({f!r}, 0)\n'
                 '    if b == 1:\n        REC.append(("raise", {f!r})); raise Boom({f!r})\n'
                 '    if b == 3:\n        REC.append(("leave", {f!r})); return Response("early:" + {f!r})\n'
+                '    if b == 5:\n        REC.append(("leave", {f!r})); return Forbidden("returned:" + {f!r})\n'
                 '    try:\n        r = next({kw})\n'
                 '    except Exception:\n'
                 '        if b == 4:\n            REC.append(("leave", {f!r})); return Response("swallow:" + {f!r})\n'
@@ -311,6 +313,7 @@ def build_app(cfg, seed=0, record=None, beh=None):
                 '    if b == 1:\n        REC.append(("raise", {f!r})); raise Boom({f!r})\n'
                 '    REC.append(("leave", {f!r}))\n'
                 '    if b == 3:\n        return Response("early:" + {f!r})\n'
+                '    if b == 5:\n        return Forbidden("returned:" + {f!r})\n'
                 '    return {ok}\n').format(py=fname.replace('.', '_'), p=ptext, f=fname, cap=cap, ok=ok)
 
     def define(src, fname):
@@ -323,7 +326,10 @@ def build_app(cfg, seed=0, record=None, beh=None):
                  'render_provides': tuple(m['render_provides'])}
         for phase, prov in (('request', 'provides'), ('endpoint', 'endpoint_provides'), ('render', 'render_provides')):
             if m[phase]:
-                kw = ', '.join('%s=%r' % (n, 'PROVIDED:%s:%s' % (m[phase], n)) for n in m[prov])
+                if rnd.random() < 0.5:
+                    kw = ', '.join('%s=%r' % (n, 'PROVIDED:%s:%s' % (m[phase], n)) for n in m[prov])
+                else:       # positional call in the declared order of the provides tuple
+                    kw = ', '.join('%r' % ('PROVIDED:%s:%s' % (m[phase], n),) for n in m[prov])
                 attrs[phase] = define(mw_src(m[phase], cfg['funcs'][m[phase]], kw), m[phase])
         mw_objs[m['name']] = type('MW_' + m['name'], (Middleware,), attrs)()
     kinds = ['function', 'lambda', 'method', 'callable_object', 'staticmethod', 'classmethod', 'decorated']
